@@ -11,7 +11,7 @@ from hypothesis import strategies as st
 import lena.core
 import lena.flow
 import lena.output
-from lena.core import Sequence, Source, Split, LenaKeyError
+from lena.core import Sequence, Source, Split, LenaKeyError, FillComputeSeq
 from lena.flow import Cache
 from lena.math import Sum
 from lena.meta.elements import SetContext, StoreContext, UpdateContextFromStatic
@@ -121,6 +121,9 @@ def expected_observation(it, ctx):
         # keeps whatever it had: not judged (mkfn: leaves the value alone)
         if k == "mkfn":
             return True, None
+        if k == "write":
+            # no name can be derived: the directory is what the element was given
+            return True, it[1]
         return False, None
 
 
@@ -160,6 +163,8 @@ def build(items, reg, path=(), exp=None, branch_as="tuple"):
             els.append(lambda v: v)
         elif k == "src":
             els.append(_src)
+        elif k == "acc":
+            els.append(Sum())
         elif k == "seq":
             els.append(Sequence(*build(it[1], reg, p, exp, branch_as)))
             exp[p] = els[-1]
@@ -180,6 +185,8 @@ def build_root(case, reg, exp=None):
     els = build(case["items"], reg, (), exp, case.get("branch_as", "tuple"))
     if case["root"] == "source":
         return Source(*els)
+    if case["root"] == "fcseq":
+        return FillComputeSeq(*els)
     return Sequence(*els)
 
 
@@ -414,6 +421,8 @@ def judge_tree(case):
                 continue
             if case["root"] == "source" and not has_kind(titems, ("src",)):
                 titems.append(["src"])
+            if case["root"] == "fcseq" and not any(x[0] == "acc" for x in titems):
+                titems.append(["acc"])
             treg = {}
             build_root({"root": case["root"], "items": titems, "branch_as": case.get("branch_as", "tuple")}, treg)
             it = node_at(items, p)
@@ -426,7 +435,7 @@ def judge_tree(case):
         if later_matters:
             classes.append("causality-checked")
         # 4. static context reaches run-time contexts only through UpdateContextFromStatic
-        if mdl.first_unres is None and not has_kind(items, ("splitbare",)):
+        if mdl.first_unres is None and not has_kind(items, ("splitbare", "acc")):
             probe = [(i, copy.deepcopy(c)) for i, c in enumerate(case.get("probe", [{}, {}]))]
             PROBE[0] = probe
             try:
@@ -477,6 +486,8 @@ def judge_tree(case):
                                             items, case.get("branch_as", "tuple"), node_at(items, p)[0], p, el._get_context(), mdl.exports[p]))
                 classes.append("rebuilt-with-cache-files-present")
     n_cons = len(reg)
+    if has_kind(items, ("acc",)):
+        classes.append("with-accumulator")
     nontrivial = bool(later_matters and n_cons) or has_kind(items, ("split",)) or mdl.first_unres is not None
     return {"nontrivial": nontrivial, "classes": sorted(set(classes))}
 
@@ -591,6 +602,25 @@ def tree_case(draw):
         return out
     items = no_bare(items, False)
     root = draw(st.sampled_from(["sequence", "sequence", "source"]))
+    branch_as = draw(st.sampled_from(["tuple", "tuple", "sequence", "sequence"]))
+    if draw(st.integers(0, 5)) == 0:
+        # an accumulator among the elements: as the fill/compute element of a FillComputeSeq (root, or a tuple
+        # branch of a Split, which is made into one), or run as an ordinary element of a Sequence
+        # (before the accumulator only elements that FillInto accepts: callables and elements without data)
+        pre = [it for it in draw(item_lists(0, 0, 3)) if it[0] in ("set", "setf", "store", "call", "mkfn")]
+        arm = pre + [["acc"]] + no_bare(draw(item_lists(1, 1, 4)), True)
+        how = draw(st.sampled_from(["root", "branch", "branch", "inline"]))
+        if how == "root":
+            items, root = arm, "fcseq"
+        elif how == "branch":
+            k = draw(st.integers(0, min(2, len(items))))
+            others = [no_bare(draw(item_lists(0, 1, 2)), True) for _ in range(draw(st.integers(0, 1)))]
+            brs = others + [arm] if draw(st.booleans()) else [arm] + others
+            items = items[:k] + [["split", brs]] + items[k:]
+            branch_as = "tuple"
+        else:
+            k = draw(st.integers(0, min(2, len(items))))
+            items = items[:k] + arm + items[k:]
     if root == "source":
         # the generating element is the first data element (only context elements may precede it)
         pos = 0
@@ -605,7 +635,7 @@ def tree_case(draw):
     rt = st.dictionaries(st.sampled_from(["a", "b", "z"]), st.sampled_from([3, "r", "s"]), max_size=2)
     probe = draw(st.one_of(st.just([{}, {}]), st.lists(rt, min_size=2, max_size=3)))
     return {"root": root, "items": items, "check_paths": [list(p) for p in chosen],
-            "branch_as": draw(st.sampled_from(["tuple", "tuple", "sequence", "sequence"])), "probe": probe}
+            "branch_as": branch_as, "probe": probe}
 
 
 CHECKS = [
